@@ -80,6 +80,11 @@ let run (args : String.t list) =
     ;
     (* state codes of a BGP4MP state change: the u16 <-> State conversion is the identity on numbers (te_state in all_enums:
        c18 round-trip theorems), and widening the record copies both fields *)
+    (* ADD-PATH direction octets through addpath_families_vec: 1, 2, 3 are the defined directions (AddpathDirection, swept above);
+       anything else makes the call an error *)
+    for d = 0 to 255 do
+      Printf.printf "APDIR %d %s\n" d (if d >= 1 && d <= 3 then Printf.sprintf "ok:3,%d" d else "E")
+    done;
     let codes = [0; 1; 2; 3; 4; 5; 6; 7; 8; 255; 256; 65535] in
     List.iter (fun o -> List.iter (fun n -> Printf.printf "STCH %d %d %d %d %d %d\n" o n o n o n) codes) codes
   | _ -> prerr_endline "usage: model c18 obs <domain-file>"; exit 2
